@@ -68,6 +68,8 @@ class Run:
             in_class = [c for c in classes if c in self.finding_classes]
             if self.prop.nontrivial(inp, tr):
                 self.nontrivial.add(sx(inp))
+            for c in classes:
+                self.dist['class:' + str(c)] = self.dist.get('class:' + str(c), 0) + 1
             for f in self.prop.features(inp, tr):
                 self.dist[f] = self.dist.get(f, 0) + 1
             if len(self.samples) < 3 and self.prop.nontrivial(inp, tr):
